@@ -434,6 +434,26 @@ def hdrworld_body(ctx, c):
                 em = w.net.log[max(n0, len(w.net.log) - 1 - (ti * 5) % 60)]
                 if em.fates:
                     w.net.push(w.clock.t + 0.001, em.dst, em.src, em.data)
+            if ti % 5 == 2 and len(w.net.log) > n0:
+                # a datagram that fails authentication but carries a sequence number the target has not seen: a damaged copy
+                # of a datagram the network lost, or a forged header a little ahead of the window.  It is dropped, and the
+                # ack fields must not name it afterwards
+                lost = [em for em in w.net.log[n0:] if not em.fates and em.key is not None]
+                if lost and ti % 2:
+                    em = lost[-1]
+                    bad = bytearray(em.data)
+                    bad[-1] ^= 0x55
+                    w.net.push(w.clock.t + 0.001, em.dst, em.src, bytes(bad))
+                else:
+                    to_server = bool(ti % 4 == 2)
+                    target = sconn if to_server else ch.conn
+                    seq = ring(M * 4 + int(target.bitfield_pkt.current_seqnum) + 1 + ti % 3)
+                    d = W.HDR.pack(W.MAGIC_TO_SERVER if to_server else W.MAGIC_TO_CLIENT, int(w.clock.t), seq, 0, 6, 20, 1, 0) + bytes(36)
+                    if to_server:
+                        w.net.push(w.clock.t + 0.001, w.server_addr, ch.laddr, d)
+                    else:
+                        w.net.push(w.clock.t + 0.001, ch.laddr, w.server_addr, d)
+                flags.add("unauthentic-fresh-seq")
         link.healed()
         w.run(0.5, c["dt"])
         # model per endpoint: accepted datagram seqs in acceptance order, positions unwrapped on the integer line
